@@ -20,7 +20,7 @@ import (
 	"verif/harness/internal/ref/txref"
 )
 
-const ruleC11 = "transactions with 1-4 inputs (owners = 4 ordinary keys + 4 distribution addresses of which 2 are locked) and 1-4 outputs; input coins/hours/creation times and the head time drawn with boundary bias incl. accrual that overflows; output hours placed at the fee boundary ceil(total/burn)+-1, at zero fee, above the inputs, or summing to >= 2^64; output coins at precision boundaries; parameters burn in [2,2^32), max size in [1024,2^32) incl. exactly size and size+-1, precision 0..6; hard-rule breakers: wrong signer, coins +-1, duplicate output, unsigned; oracle: big-integer model of the soft and hard rules (harness/internal/ref/rules): error nil <=> model passes, soft errors carry the soft type and hard errors the hard type; non-trivial = fee within 2 of the boundary, or size within 1 of the limit, or a locked/precision/overflow class; distinct by (txn, params, head time)"
+const ruleC11 = "transactions with 1-4 inputs (owners = 4 ordinary keys + 4 distribution addresses of which 2 are locked) and 1-4 outputs; input coins/hours/creation times and the head time drawn with boundary bias incl. accrual that overflows; output hours placed at the fee boundary ceil(total/burn)+-1, at zero fee, above the inputs, or summing to >= 2^64 (every output near 2^64, the first and last of three or more only, or only four quarters together); output coins at precision boundaries; parameters burn in [2,2^32), max size in [1024,2^32) incl. exactly size and size+-1, precision 0..6; hard-rule breakers: wrong signer, coins +-1, duplicate output, unsigned; oracle: big-integer model of the soft and hard rules (harness/internal/ref/rules): error nil <=> model passes, soft errors carry the soft type and hard errors the hard type; non-trivial = fee within 2 of the boundary, or size within 1 of the limit, or a locked/precision/overflow class; distinct by (txn, params, head time)"
 
 var (
 	distKeys   = []gen.Key{gen.KeyN(10), gen.KeyN(11), gen.KeyN(12), gen.KeyN(13)}
@@ -157,6 +157,20 @@ func genSoftCase(t *rapid.T) softCase {
 	case "overflow":
 		for i := range outHours {
 			outHours[i] = ^uint64(0) - rapid.Uint64Range(0, 3).Draw(t, "oh")
+		}
+		if len(outHours) >= 3 && rapid.Bool().Draw(t, "overflow_not_in_neighbours") {
+			// the total passes 2^64 although no two neighbouring outputs do: first and last large, or four quarters
+			for i := range outHours {
+				outHours[i] = uint64(i)
+			}
+			if len(outHours) >= 4 && rapid.Bool().Draw(t, "quarters") {
+				for i := 0; i < 4; i++ {
+					outHours[i] = 1<<62 + uint64(i)
+				}
+			} else {
+				outHours[0], outHours[len(outHours)-1] = 1<<63, 1<<63
+			}
+			c.tags = append(c.tags, "hours_overflow_spread")
 		}
 	case "all_burned":
 	default:
